@@ -532,7 +532,20 @@ func propC05(t *rapid.T) {
 			}
 			hasField = false
 		case "slog":
+			// any slog level of the class that maps to lv: slog's scale has room between and beyond the named
+			// levels (Debug+1 ... Info-1 are still debug records, Error+4 is an error record)
 			sl := map[zapcore.Level]slog.Level{zapcore.DebugLevel: slog.LevelDebug, zapcore.InfoLevel: slog.LevelInfo, zapcore.WarnLevel: slog.LevelWarn, zapcore.ErrorLevel: slog.LevelError}[lv]
+			switch lv {
+			case zapcore.DebugLevel:
+				sl += slog.Level(rapid.IntRange(-4, 3).Draw(t, "slogOffset"))
+			case zapcore.ErrorLevel:
+				sl += slog.Level(rapid.IntRange(0, 12).Draw(t, "slogOffset"))
+			default:
+				sl += slog.Level(rapid.IntRange(0, 3).Draw(t, "slogOffset"))
+			}
+			if c18ZapLevel(sl) != lv {
+				t.Fatalf("harness: slog level %d is not of the class of zap level %v", sl, lv)
+			}
 			slog.New(zapslog.NewHandler(lg.Core())).Log(context.Background(), sl, msg, "o", 1)
 			hasField = false
 		}
